@@ -464,7 +464,9 @@ func FamilyLevels() []Program {
 				if c >= 0 {
 					vs = append(vs, Validation{Name: "vc", Level: levels[c], Class: 1, F: And{[]Formula{mc(1)}}})
 				}
-				p := Program{Name: "P", Validations: vs}
+				// the profile's name is data too: plain, and with the characters the translator must protect
+				names := []string{"P", `Team "blue" API rules`, `a\b 100% {x} it's`, "Validación é 漢"}
+				p := Program{Name: names[(a+2*b+c+1)%len(names)], Validations: vs}
 				if (a+b+c)%3 == 0 {
 					p.Undefined = []string{"warning:ghost"}
 				}
